@@ -5,6 +5,7 @@ install() patches, in place, on the class objects every alias shares:
   sigpy.prox.Prox.__call__    -> prox_mon   (icontract postcondition: per-class optimality certificate)
   sigpy.alg.Alg.update / done -> alg_mon    (exactly-once counter, update budget, event hooks)
   sigpy.app.App.run           -> alg_mon    (returns what the algorithm holds)
+  public array functions      -> arg_mon    (observer: element types / memory layouts actually seen)
 
 Every monitor counts its evaluations in STATE.count; violations are appended to
 STATE.events as dicts {prop, kind, detail}.  Monitors never raise into the
@@ -42,8 +43,9 @@ STATE = _State()
 def install():
     if STATE.installed:
         return
-    from vf.monitors import linop_mon, prox_mon, alg_mon
+    from vf.monitors import linop_mon, prox_mon, alg_mon, arg_mon
     linop_mon.install()
+    arg_mon.install()
     prox_mon.install()
     alg_mon.install()
     STATE.installed = True
